@@ -71,6 +71,12 @@ def family_G(name, N=2):
         return d
     if name == "g5":
         return simple_airplane(N=N, reid=False, sweep=8.0, controls=True, cg=(-0.3, 0.0, 0.0))
+    if name in ("m1", "m2"):
+        # minimal one-sided aircraft (one segment) for scenes with several aircraft
+        d = simple_airplane(N=N, reid=False, sweep=12.0 if name == "m1" else -6.0, dihedral=3.0 if name == "m1" else 8.0, cg=(-0.15, 0.05, 0.02) if name == "m1" else (0.1, -0.1, 0.0))
+        d["wings"]["main"]["side"] = "right" if name == "m1" else "left"
+        d["wings"]["main"]["airfoil"] = "a1" if name == "m1" else "a2"
+        return d
     raise KeyError(name)
 
 
